@@ -177,6 +177,60 @@ def shape_cases(rng, tier):
     return cases
 
 
+def boundary_cases(rng, tier):
+    """plans over BOUNDARY OBJECT TABLES: a problem without objects ('(:objects)': the exporter hands an EMPTY table to every
+    Operator - quantified conditions and forall-when effects must then range over the domain's constants), with and without
+    constants of the quantified type, and a quantified type that nothing inhabits (props/c03.boundary_table); and plans over
+    actions whose quantified variables SHADOW an action parameter / an enclosing quantified variable (props/c03.plant_shadow)"""
+    from .c03 import boundary_table, plant_read_write, plant_shadow, plant_when_forall, shadows
+    cases = []
+    per = {"quick": 2, "thorough": 16}[tier]
+    for mode in ("empty+constants", "empty-constants", "uninhabited", "shadow"):
+        k, tries = 0, 0
+        while k < per and tries < 400:
+            tries += 1
+            w = G.gen_world(rng, max_actions=2)
+            if k % 2 == 1:
+                plant_read_write(rng, w)
+            elif rng.random() < 0.5:
+                plant_when_forall(rng, w)
+            if mode == "shadow":
+                if not plant_shadow(rng, w) or not any(shadows(a) for a in w.actions):
+                    continue
+                objs = G.gen_objects(rng, w, n=3)
+            else:
+                if rng.random() < 0.25:
+                    plant_shadow(rng, w, how_many=1)
+                tab = boundary_table(rng, w, mode)
+                if tab is None:
+                    continue
+                objs = tab[0]
+            quantified = [a["name"] for a in w.actions if any(x == "forall" for x in flat_tokens(a["eff"]))]
+            calls = all_calls(rng, w, objs)
+            qcalls = [c for c in calls if c[0] in quantified]
+            if not qcalls:
+                continue
+            st = G.gen_state(rng, w, objs)
+            base = {"domain_text": G.render(w.domain_tree("dom"), rng, True), "problem_text": G.problem_text(w, objs, st, domain="dom"),
+                    "objects": [list(o) for o in objs], "init": st, "features": sorted(w.features), "numeric_actions": numeric_actions(w)}
+            plan = [rng.choice(qcalls if rng.random() < 0.7 else calls) for _ in range(rng.choice([2, 3, 4, 5]))]
+            noise = rng.random() < 0.4
+            lines = [render_line(rng, n, a, noise) for n, a in plan]
+            for allow in (False, True):
+                cases.append(dict(base, kind=("shadow" if mode == "shadow" else "object-table:" + mode), lines=lines, calls=plan,
+                                  allow=allow, strict=True, expect_raise=False, noise=noise))
+            k += 1
+    return cases
+
+
+def flat_tokens(t):
+    if isinstance(t, str):
+        yield t
+    else:
+        for x in t:
+            yield from flat_tokens(x)
+
+
 def gen_cases(rng, tier):
     n_worlds = {"quick": 30, "thorough": 170}[tier]
     cases = []
@@ -366,7 +420,7 @@ def run(args):
         data = json.load(open(args.replay))
         cases = [data["input"]["case"]]
     else:
-        cases = corpus_cases() + fixture_cases(args.tier) + gen_cases(rng, args.tier) + repeat_cases(rng, args.tier) + shape_cases(rng, args.tier)
+        cases = corpus_cases() + fixture_cases(args.tier) + gen_cases(rng, args.tier) + repeat_cases(rng, args.tier) + shape_cases(rng, args.tier) + boundary_cases(rng, args.tier)
         # the shipped plans have large states (their shards are the slow ones): one of them per shard of 24 cases
         big = [c for c in cases if c["kind"].startswith("fixture")]
         rest = [c for c in cases if not c["kind"].startswith("fixture")]
@@ -439,6 +493,16 @@ def run(args):
                         gs["by_shape"][sh] = gs["by_shape"].get(sh, 0) + 1
                     for s in res.get("steps") or []:
                         gs["steps_executed" if s.get("applicable") else "steps_forced" if c["allow"] else "steps_refused_unchanged"] += 1
+                if c["kind"].startswith("object-table") or c["kind"] == "shadow":
+                    bt = dist.setdefault("boundary_object_tables_and_shadowing", {}).setdefault(
+                        c["kind"], {"plans": 0, "objects_in_problem": {}, "steps_executed": 0, "steps_forced": 0, "steps_refused_unchanged": 0,
+                                    "steps_that_changed_the_state": 0})
+                    bt["plans"] += 1
+                    no = str(len(c.get("objects") or []))
+                    bt["objects_in_problem"][no] = bt["objects_in_problem"].get(no, 0) + 1
+                    for s_ in res.get("steps") or []:
+                        bt["steps_executed" if s_.get("applicable") else "steps_forced" if c["allow"] else "steps_refused_unchanged"] += 1
+                        bt["steps_that_changed_the_state"] += 1 if norm_state(s_["pre"]) != norm_state(s_["post"]) else 0
                 rc = dist["repeated_calls"]
                 hist = {}
                 for s in res.get("steps") or []:
@@ -491,7 +555,10 @@ def run(args):
         "with other steps between), refused first and executed later (an enabling action in between), executed and refused later - the action's "
         "'when' / 'forall-when' effects read the fluent its unconditional group writes (table repeated_calls). guard-shape: actions whose precondition "
         "is of ONE kind only (only (in)equalities between parameters, only a forall, only a nested 'or', only numeric comparisons, empty; every shape "
-        "in every run) walked by plans whose steps violate and satisfy them (table guard_shapes). Every state of every triplet is serialized AFTER "
+        "in every run) walked by plans whose steps violate and satisfy them (table guard_shapes). object-table: problems WITHOUT objects ('(:objects)'; the "
+        "exporter hands every Operator an empty table) over domains with and without constants of the type a forall-when / a quantified condition ranges "
+        "over, and problems where nothing inhabits that type; shadow: actions whose quantified variables have the name of an action parameter / of an "
+        "enclosing quantified variable (table boundary_object_tables_and_shadowing). Every state of every triplet is serialized AFTER "
         "parse_plan returned (a post-state rewritten by a later step is seen). Observables: every triplet's "
         "pre-state, operator text and post-state re-read from State.serialize(), Operator.apply applied directly to each pre-state "
         "(returned state / ValueError / other), and the exported trajectory text read back inside Coq by the tokenizer model. "
